@@ -12,9 +12,13 @@ Runs before the Coq build on every ./check C17:
   3. writes build/c17gen/manifest.json (read by the Go stream `enum`, which cross-checks the
      parser against the compiled maps and the tables against the YANG statements), and
      build/coqgen/Gen_Enums.v + C17_tables.v, and compiles them:
-        c17_all_generated_tables_ok : forallb (fun t => tbl_okb_full (snd t)) generated_tables = true
-     by vm_compute, lifted by Properties/C17.v's c17_lift (tbl_ok_spec + forallb_forall).
-The adversarial tables are only diagnosed (tbl_diag); ill-formed ones become findings.
+        c17_all_generated_tables_ok : forallb (fun t => tbl_checkb (snd t)) generated_tables = true
+     by vm_compute, lifted by Properties/C17.v's c17_colon_lift (tbl_checkb_statement + forallb_forall).
+     tbl_checkb (Scalar/EnumColon.v) applies tbl_okb_full to a table without ':' in any name (which
+     yields c17_table_statement, as before) and tblc_okb to a table with a ':' in some name
+     (enum "ipv4:unicast": keys = names after StripModulePrefix distinct and non-empty; yields
+     c17_colon_table_statement).  The choice is made inside Coq, not by this translator.
+The adversarial tables are only diagnosed (tbl_check_diag); ill-formed ones become findings.
 Python stdlib only."""
 import concurrent.futures, hashlib, itertools, json, os, re, shutil, subprocess, time
 import vcheck, vgen
@@ -169,13 +173,14 @@ def configs(tier):
                     "flags": flags, "gen": os.path.join(BUILD, "gen", name, "gen.go"), "run": False})
     ydir = os.path.join(GEN, "yang")
     corpora = [("vmain", [os.path.join(Y, "v-main.yang"), os.path.join(Y, "v-types.yang")], [Y]),
+               ("vcolon", [os.path.join(Y, "v-colon.yang")], [Y]),      # enumeration names with ':'
                ("voc", [os.path.join(Y, "v-oc.yang")], [Y]),
                ("ocx", [os.path.join(ydir, "openconfig-c17x.yang"), os.path.join(ydir, "openconfig-c17y.yang")], [ydir])]
     unions = [("s", ["-generate_simple_unions"])] + ([("w", [])] if tier == "thorough" else [])
     for cname, yfiles, path in corpora:
         for uname, uflags in unions:
-            # v-main is not written in the OpenConfig style: the generator rejects it under -compress_paths
-            for compress in ((False,) if cname == "vmain" else (False, True)):
+            # v-main / v-colon are not written in the OpenConfig style: the generator rejects them under -compress_paths
+            for compress in ((False,) if cname in ("vmain", "vcolon") else (False, True)):
                 for bits in itertools.product((0, 1), repeat=len(ENUM_FLAGS)):
                     # shorten_enum_leaf_names and trim_enum_openconfig_prefix are documented to act only under
                     # compress_paths: the quick tier does not vary them without it (the thorough tier does)
@@ -246,26 +251,34 @@ def coq_tables(sh, name, rows, chunk=40):
 
 
 TABLES_V = """(* GENERATED by lib/c17_pre.py on every run of ./check C17 -- do not edit. *)
-From Ygot Require Import Tree.Tree Tree.Codec Scalar.EnumTable Scalar.EnumTableProofs Properties.C17.
+From Ygot Require Import Tree.Tree Tree.Codec Scalar.EnumTable Scalar.EnumTableProofs
+  Scalar.EnumColon Scalar.EnumColonProofs Properties.C17.
 From YgotGen Require Import Gen_Enums.
 Open Scope N_scope.
 
-(* diagnostics first, so that a failing obligation can be attributed to its tables *)
-Definition c17_bad_generated := Eval vm_compute in bad_tables generated_tables.
+(* diagnostics first, so that a failing obligation can be attributed to its tables:
+   (index, (some name has a ':', the four checks of the predicate that applies)) *)
+Definition c17_bad_generated := Eval vm_compute in bad_tables_c generated_tables.
 Print c17_bad_generated.
-Definition c17_bad_adversarial := Eval vm_compute in bad_tables adversarial_tables.
+Definition c17_bad_adversarial := Eval vm_compute in bad_tables_c adversarial_tables.
 Print c17_bad_adversarial.
+Definition c17_colon_generated := Eval vm_compute in
+  length (filter (fun t => tbl_has_colonb (snd t)) generated_tables).
+Print c17_colon_generated.
 
 (* the regenerated obligation: every table of every generated package under every enum-naming
-   flag combination is well formed *)
+   flag combination is well formed (tbl_okb_full, or tblc_okb when a name contains ':') *)
 Theorem c17_all_generated_tables_ok :
-  forallb (fun t => tbl_okb_full (snd t)) generated_tables = true.
+  forallb (fun t => tbl_checkb (snd t)) generated_tables = true.
 Proof. vm_compute. reflexivity. Qed.
 Print Assumptions c17_all_generated_tables_ok.
 
-(* ... hence (tbl_ok_spec + forallb_forall, packaged as c17_lift) the C17 statement holds of each *)
-Theorem c17_generated_tables_bijective : forall t, In t generated_tables -> c17_table_statement (snd t).
-Proof. exact (c17_lift generated_tables c17_all_generated_tables_ok). Qed.
+(* ... hence (tbl_checkb_statement + forallb_forall, packaged as c17_colon_lift) the C17 statement
+   holds of each: the colon statement of every table, and the statement with the module-prefixed
+   form of every table without ':' in its names *)
+Theorem c17_generated_tables_bijective : forall t, In t generated_tables ->
+  c17_colon_table_statement (snd t) /\ (tbl_has_colonb (snd t) = false -> c17_table_statement (snd t)).
+Proof. exact (c17_colon_lift generated_tables c17_all_generated_tables_ok). Qed.
 Print Assumptions c17_generated_tables_bijective.
 """
 
@@ -276,15 +289,17 @@ def coqc(args, cwd):
     return p.returncode == 0, p.stdout
 
 
-RE_BAD = re.compile(r"\((\d+)(?:%nat)?,\s*\((true|false),\s*(true|false),\s*(true|false),\s*(true|false)\)\)")
-CHECKS = ["values-distinct", "names-distinct", "zero-free", "names-wellformed"]
+RE_BAD = re.compile(r"\((\d+)(?:%nat)?,\s*\((true|false),\s*\((true|false),\s*(true|false),\s*(true|false),\s*(true|false)\)\)\)")
+CHECKS = ["values-distinct", "names-distinct", "zero-free", "names-wellformed"]              # tbl_diag
+CHECKS_COLON = ["values-distinct", "keys-distinct", "zero-free", "entries-wellformed"]       # tblc_diag
 
 
 def parse_bad(out, which):
     m = re.search(which + r"\s*=\s*(.*?)\s*:\s*list", " ".join(out.split()))
     if not m:
         return None
-    return [(int(a), [c for c, ok in zip(CHECKS, (b1, b2, b3, b4)) if ok == "false"]) for a, b1, b2, b3, b4 in RE_BAD.findall(m.group(1))]
+    return [(int(a), [c for c, ok in zip(CHECKS_COLON if hc == "true" else CHECKS, (b1, b2, b3, b4)) if ok == "false"])
+            for a, hc, b1, b2, b3, b4 in RE_BAD.findall(m.group(1))]
 
 
 def classify(t, failed):
@@ -299,6 +314,11 @@ def classify(t, failed):
         sigs.append("enum/duplicate-value")
     if "names-wellformed" in failed:
         sigs.append("enum/bad-name")
+    # a table with a ':' in some name (checked by tblc_okb)
+    if "keys-distinct" in failed:
+        sigs.append("enum/colon-name/duplicate-suffix")
+    if "entries-wellformed" in failed:
+        sigs.append("enum/colon-name/bad-name")
     return sigs
 
 
@@ -387,12 +407,17 @@ def pre(tier, seed):
     bad_gen = parse_bad(out2, "c17_bad_generated")
     bad_adv = parse_bad(out2, "c17_bad_adversarial")
     closed = out2.count("Closed under the global context")
+    mc = re.search(r"c17_colon_generated\s*=\s*(\d+)", out2)
+    n_colon = int(mc.group(1)) if mc else -1
+    n_colon_py = len([1 for _, t in generated if any(":" in e["name"] for e in t["entries"])])
+    if n_colon != n_colon_py:
+        res["broken"].append({"translator": "tables with a ':' in a name: %d counted by Coq, %d by the translator" % (n_colon, n_colon_py)})
     for which, bad, rows in (("generated", bad_gen, generated), ("adversarial", bad_adv, adversarial)):
         for idx, failed in (bad or []):
             cfg, t = rows[idx]
             for sig in classify(t, failed):
                 res["findings"].append({"signature": sig,
-                                        "what": "generated table is not well formed (%s fails; checked by tbl_okb_full in Coq): %s" % (", ".join(failed), json.dumps(t["entries"])),
+                                        "what": "generated table is not well formed (%s fails; checked by tbl_checkb in Coq): %s" % (", ".join(failed), json.dumps(t["entries"])),
                                         "input": {"config": cfg, "type": t["type"], "flags": next(c["flags"] for c in cfgs if c["name"] == cfg),
                                                   "yang": [os.path.basename(y) for y in next(c["yang"] for c in cfgs if c["name"] == cfg)]}})
     if not ok2 or closed < 2 or bad_gen is None or bad_adv is None:
@@ -408,7 +433,7 @@ def pre(tier, seed):
         "rule": "tables of %d generator configurations (%d standard, %d of the enum-naming flag matrix over 3 corpora, %d adversarial); distinct by table content" % (len(manifest), len([m for m in manifest if m["group"] == "standard"]), len([m for m in manifest if m["group"] == "matrix"]), len([m for m in manifest if m["group"] == "adversarial"])),
         "samples": [{"config": cfg, "type": t["type"], "table": t["entries"]} for cfg, t in (generated[:2] + adversarial[:1])],
         "coverage": {"c17_generated_tables": len(generated), "c17_adversarial_tables": len(adversarial), "c17_distinct_table_contents": distinct,
-                     "c17_configurations": len(manifest), "c17_ill_formed_adversarial": len(bad_adv or []), "c17_ill_formed_generated": len(bad_gen or []),
+                     "c17_configurations": len(manifest), "c17_ill_formed_adversarial": len(bad_adv or []), "c17_ill_formed_generated": len(bad_gen or []), "c17_colon_name_tables": n_colon,
                      "c17_tables_checker_cmd": "coqc -Q coq/theories Ygot -Q build/coqgen YgotGen build/coqgen/C17_tables.v",
                      "c17_pre_s": round(time.time() - t0, 2)},
     })
